@@ -120,3 +120,110 @@ def compare(sch, native_events, interp_events):
                 if na.get(k) != b[2][k]:
                     return "event %d (%s): %s differs: native %r, interpreter %r" % (i, a[1], k, na.get(k), b[2][k])
     return None
+
+
+# ---------------------------------------------------------------------------------------------
+# symbolic histories: the witness finder.  `phases` is a list of ("calls", k) | ("close_until", K) | ("close", K)
+class SymHistory:
+    def __init__(self, su, U, phases):
+        import lemmas as L
+        self.su = su
+        self.ctx = V.set_ctx(V.Ctx(Circuit(), U=U))
+        self.ctx.opaque_weights = False
+        self.ctx.bv_weights = True
+        self.ctx.dedupe_rows = True
+        self.ctx.compact_k = U
+        self.I = Interp(su.prog, self.ctx, loop_bound=U)
+        self.sch = M.Schema(su.prog)
+        self.c = self.ctx.c
+        self.m = self.I.call_fn(su.prog.methods[(self.sch.model, "new")], T, [])
+        self.st = M.State(self.sch, self.m)
+        self.muts = [(n, it) for n, it in L.public_mutators(su, self.sch)]
+        self.steps = []        # decoding info: ("call", sel, [(name, args)]) | ("close_until", [cond lits], ret, rv) | ("close",)
+        self.obs = []          # observation points: (label, guard, kind) where kind in {"cond", "returned"}
+        self.assume = []
+        self.phases = phases
+
+    def precreate(self):
+        """a symbolic number (0..U) of elements per plain type, created by guarded new_<type>() calls"""
+        ctx, c = self.ctx, self.c
+        pre = []
+        for t in self.sch.types:
+            item = self.su.prog.methods.get((self.sch.model, "new_" + t))
+            if item is None or len(item["sig"]["inputs"]) != 1:
+                continue          # enum types have no argument-less constructor
+            n = ctx.fresh_int("pre.%s" % t, 0, ctx.U)
+            for i in range(ctx.U):
+                self.I.call_fn(item, V.int_lt(i, n), [], self_val=self.m)
+            pre.append((t, n))
+        self.steps.append(("precreate", pre))
+
+    def sym_call(self, idx):
+        import lemmas as L
+        ctx, c = self.ctx, self.c
+        sel = ctx.fresh_int("h%d.sel" % idx, 0, len(self.muts))     # == len(muts): no-op
+        alts = []
+        for j, (name, item) in enumerate(self.muts):
+            g = V.int_eq(sel, j)
+            pre = []
+            args = [L.symbolic_arg(ctx, self.sch, self.su, self.st, inp["ty"], "h%d.%s.arg%d" % (idx, name, i), pre)
+                    for i, inp in enumerate(item["sig"]["inputs"][1:])]
+            self.assume.append(c.implies(g, c.andl(pre)))
+            self.I.call_fn(item, g, args, self_val=self.m)
+            alts.append((name, args))
+        self.steps.append(("call", sel, alts))
+
+    def sym_close(self, K, early_allowed, on_cond, on_return):
+        ctx, c = self.ctx, self.c
+        conds = []
+
+        def cond(I_, g, args):
+            b = ctx.fresh_bool("cond") if early_allowed else F
+            conds.append((g, b))
+            on_cond(g)
+            return mkbool(b)
+        self.I.loop_bounds["close_until"] = K
+        r = self.I.call_fn(self.su.prog.methods[(self.sch.model, "close_until")], T, [NativeFn(cond, "cond")], self_val=self.m)
+        self.steps.append(("close_until", conds, r))
+        on_return(lit(r))
+
+    def decode(self, model):
+        """script lines for a solver model"""
+        c = self.c
+        lines = []
+
+        def val(x):
+            if isinstance(x, int):
+                return x
+            for k, g in V.cases_of(x).items():
+                if c.evaluate([g], model)[0]:
+                    return k
+            return 0
+
+        def render(a):
+            if isinstance(a, EnumV):
+                for vn, (g, payload) in a.alts.items():
+                    if c.evaluate([g], model)[0]:
+                        return " ".join([vn] + [str(val(x)) for x in payload])
+            return str(val(a))
+        for st in self.steps:
+            if st[0] == "precreate":
+                for t, n in st[1]:
+                    lines += ["new_" + t] * val(n)
+            elif st[0] == "call":
+                j = val(st[1])
+                if j < len(st[2]):
+                    name, args = st[2][j]
+                    lines.append(" ".join([name] + [render(a) for a in args]))
+            elif st[0] == "close_until":
+                n = 0
+                stop = None
+                for g, b in st[1]:
+                    if not c.evaluate([g], model)[0]:
+                        continue
+                    if b != F and c.evaluate([b], model)[0]:
+                        stop = n
+                        break
+                    n += 1
+                lines.append("close" if stop is None else "close_until %d" % stop)
+        return lines
